@@ -83,7 +83,7 @@ def run_world(tape: Any, scenario: Dict[str, Any], mode_args: List[str], nacc: i
                 org = Origin(w, ip, 80, lambda i, responder=responder, n=len(resps), tail=tail: [('serve', responder, n)] + list(tail),
                              name='o%d' % k, read_mode='chunky')
                 for j, rq in enumerate(cn['reqs']):
-                    script += [('send', rq, 'burst') if cn['burst'] else ('send', rq, 'dribble', 512), ('wait_rx', (lambda n: (lambda pe: count_responses(bytes(pe.rx)) >= n))(j + 1))]
+                    script += [('send', rq, 'burst') if cn['burst'] else ('send', rq, 'dribble', 512), ('wait_rx', _responses_at_least(j + 1))]
                 script += [('wait_eof',), ('close',)] if cn.get('origin_closes') else [('close',)]
             elif role == 'tunnel':
                 org = Origin(w, ip, 443, lambda i, k=k: [('wait_rx', lambda pe: len(pe.rx) >= 6), ('send', b'pong-%d' % k, 'burst'),
@@ -106,12 +106,12 @@ def run_world(tape: Any, scenario: Dict[str, Any], mode_args: List[str], nacc: i
                     # request, FIN, then read to the end: the reply is still being produced when the proxy sees our EOF
                     script += [('shut_wr',), ('wait_eof',), ('close',)]
                 else:
-                    script += [('wait_rx', lambda pe: count_responses(bytes(pe.rx)) >= 1), ('close',)]
+                    script += [('wait_rx', _responses_at_least(1)), ('close',)]
             elif role == 'reverse':
                 org = Origin(w, ip, 80, lambda i, k=k: [('serve', lambda pe, info: [('send', b'HTTP/1.1 200 OK\r\nContent-Length: 5\r\n\r\nrev-%d' % k, 'burst')], 1),
                                                         ('wait_eof',), ('close',)], name='o%d' % k)
                 script += [('send', b'GET /rev%d HTTP/1.1\r\nHost: pub\r\n\r\n' % k, 'burst'),
-                           ('wait_rx', lambda pe: count_responses(bytes(pe.rx)) >= 1), ('close',)]
+                           ('wait_rx', _responses_at_least(1)), ('close',)]
             elif role == 'malformed':
                 script += [('send', cn['bytes'], 'burst'), ('wait_eof',), ('close',)]
             else:       # refused upstream
@@ -146,6 +146,20 @@ def run_world(tape: Any, scenario: Dict[str, Any], mode_args: List[str], nacc: i
         out['steps'] = w.steps
         out['log'] = list(w.log)
     return out
+
+
+def _responses_at_least(n: int) -> Any:
+    """Wait condition 'the client has n complete responses'; evaluated at every scheduler step, so the count is cached per
+    length of what was received (re-parsing a megabyte at every step made thorough runs trip the watchdog)."""
+    from .c04 import count_responses
+    memo = {'len': -1, 'n': 0}
+
+    def cond(pe: Any) -> bool:
+        if len(pe.rx) != memo['len']:
+            memo['len'] = len(pe.rx)
+            memo['n'] = count_responses(bytes(pe.rx))
+        return memo['n'] >= n
+    return cond
 
 
 def run_one(tape: Any, cfg: Dict[str, Any], forbid: FrozenSet[str] = frozenset()) -> Result:
